@@ -192,7 +192,37 @@ def reuse(cell):
     return {'v': out, 'n': 2, 'nt': cell if cell[0] != cell[1] else None, 'obs': [cell[0][2], cell[1][2]]}
 
 
-PARTS = {'rows': rows, 'reuse': reuse}
+def powder(cell):
+    """the velocity correction of the Miller stability uses the velocity the shot is actually launched with (powder temperature sensitivity)"""
+    import py_ballisticcalc as pb
+    from mc.world import make_atmo
+    U = pb.Unit
+    mod, powder_c, tw, atmo = cell
+    w, d, l = BULLETS['full']
+    dm = pb.DragModel(0.223, pb.TableG7, U.Grain(w), U.Inch(d), U.Inch(l))
+
+    def shot(twist):
+        at = make_atmo(ATMOS[atmo])
+        at = pb.Atmo(at.altitude, at.pressure, at.temperature, at.humidity * 100, U.Celsius(powder_c))
+        ammo = pb.Ammo(dm, U.FPS(2750), U.Celsius(15), mod, True)
+        return pb.Shot(pb.Weapon(U.Inch(2), U.Inch(twist), U.Degree(0.2)), ammo, atmo=at)
+    calc = make_calc()
+    R = calc.fire(shot(tw), U.Yard(600), U.Yard(100)).trajectory
+    R0 = calc.fire(shot(0.0), U.Yard(600), U.Yard(100)).trajectory
+    launch = R[0].velocity >> U.FPS
+    at = shot(tw).atmo
+    S = miller(tw, w, d, l, launch, at.temperature >> U.Fahrenheit, at.pressure >> U.InHg)
+    out = []
+    for i, (r, r0) in enumerate(zip(R, R0)):
+        sd = (r.windage >> U.Foot) - (r0.windage >> U.Foot)
+        exp = (1 if tw > 0 else -1) * 1.25 * (S + 1.2) * r.time ** 1.83 / 12
+        if abs(sd - exp) > 1e-9 * max(1.0, abs(exp)) + 1e-12:
+            out.append({'msg': f'powder at {powder_c} C, modifier {mod}, launch speed {launch:.2f} fps (stated 2750): row {i} spin drift {sd!r} ft, Litz/Miller with the LAUNCH speed give {exp!r} ft (Sg={S:.4f})', 'key': None})
+            break
+    return {'v': out, 'n': 2, 'nt': cell if abs(launch - 2750) > 1 else None}
+
+
+PARTS = {'rows': rows, 'reuse': reuse, 'powder': powder}
 
 
 def plan(tier):
@@ -204,4 +234,5 @@ def plan(tier):
     variants = [['icao', 2750.0, 'full', 12.0], ['hot', 2750.0, 'full', 12.0], ['icao5k', 2200.0, 'full', 12.0], ['icao', 2750.0, 'nolength', 12.0],
                 ['icao', 2750.0, 'noweight', 12.0], ['icao', 2750.0, 'full', -8.0], ['icao', 2750.0, 'full', 0.0], ['vac5k', 2750.0, 'full', 12.0]]
     ru = [[a, b] for a in variants for b in variants]
-    return [('rows', cells), ('reuse', ru)]
+    pw = [[m, t, tw, a] for m in (0.02, -0.015, 0.0) for t in (35.0, -10.0, 15.0) for tw in (12.0, -8.0) for a in ('icao', 'hot')]
+    return [('rows', cells), ('reuse', ru), ('powder', pw)]
